@@ -173,7 +173,13 @@ def program_source(fns, main_decorator=None) -> str:
     out = [HDR]
     for i, f in enumerate(fns):
         dec = main_decorator if (i == len(fns) - 1 and main_decorator) else None
-        out.append("\n".join(fn_source(f, 0, True, dec)) + "\n\n")
+        if f.get("factory"):
+            # several subroutines share one Python def name (`helper`), each bound to its own global
+            inner = dict(f, name="helper")
+            out.append(f"def _mk_{f['name']}():\n" + "\n".join(fn_source(inner, 1, True, None))
+                       + f"\n    return helper\n{f['name']} = _mk_{f['name']}()\n\n")
+        else:
+            out.append("\n".join(fn_source(f, 0, True, dec)) + "\n\n")
     return "".join(out)
 
 
@@ -429,7 +435,8 @@ class MoveGen:
         self.feat = {"lookups": True, "unknown": 0.04, "closures": True, "recursion": True, "subs": True,
                      "early_return": False, "parallel": True, "devcalls": True, "gates": True, "fill": True,
                      "measure": True, "assert": 0.02, "cz_positional": 0.0, "args_dependent": 0.7,
-                     "dynamic_call": 0.0, "dead_effect": 0.0, "wrong_kind": 0.0}
+                     "dynamic_call": 0.0, "dead_effect": 0.0, "wrong_kind": 0.0, "alias_subs": 0.0,
+                     "devfn_param": 0.0, "loop_return": 0.0}
         if feat:
             self.feat.update(feat)
         self.counter = 0
@@ -678,7 +685,8 @@ class MoveGen:
                             ("if", self.bool_e(env), self.block(self.sub_env(env), 0, True, 1) + [("ret", rv)], []))
             if returns == "int":
                 body.append(("ret", self.int_e(env, 1)))
-        return {"name": name, "tweezer": False, "params": params, "body": body, "nested": {}, "kinds": kinds, "returns": returns}
+        return {"name": name, "tweezer": False, "params": params, "body": body, "nested": {}, "kinds": kinds, "returns": returns,
+                "factory": (not recursive) and self.rng.random() < self.feat["alias_subs"]}
 
     def program(self):
         """-> (top-level fns in definition order (entry point last), argument tuples for the entry point)"""
@@ -712,6 +720,34 @@ class MoveGen:
                 body += self.block(env, 1, False, 1)
                 body.append(("expr", ("callv", ("var", cname), [L(self.rng.randrange(0, 3))])))
         force_ret = None
+        if env["dev"] and self.rng.random() < self.feat["devfn_param"]:
+            # the same call site executed several times with equal operands but different device functions
+            z = self.grid_e(env)
+            k = L(self.rng.randrange(0, 3))
+            ds = [("var", d) for d in env["dev"]]
+            ds.append(P("reverse", ds[0]))
+            self.rng.shuffle(ds)
+            if self.rng.random() < 0.5:
+                self.need_call_dev = True
+                zv = self.fresh("z")
+                body.append(("assign", zv, z))
+                for d in ds[:3]:
+                    body.append(("expr", ("call", "call_dev", [d, ("var", zv), k])))
+            else:
+                fv, cv, kv = self.fresh("f"), self.fresh("c"), self.fresh("k")
+                zv = self.fresh("z")
+                body += [("assign", zv, z), ("assign", fv, ds[0]), ("assign", cv, L(0)),
+                         ("for", kv, L(0), P("add", ("var", "n"), L(1)), L(1),
+                          [("assign", cv, P("add", ("var", cv), L(1))), ("devcall", ("var", fv), [("var", zv), k], []),
+                           ("assign", fv, P("reverse", ("var", fv)))])]
+        if self.rng.random() < self.feat["loop_return"]:
+            # a loop whose body returns on every path; what follows runs only for zero iterations
+            kv, cv = self.fresh("k"), self.fresh("c")
+            body += [("assign", cv, L(0)),
+                     ("for", kv, L(0), ("var", self.rng.choice(["n", "m"])), L(1),
+                      [("assign", cv, P("add", ("var", cv), L(1))), ("ret", ("var", kv))])]
+            if self.feat["gates"]:
+                body.append(self.gate(env))
         if self.rng.random() < self.feat["dead_effect"] and self.feat["gates"]:
             # a device-visible statement no execution over the argument domain reaches
             body.append(("if", P("gt", ("var", "n"), L(10 + self.rng.randrange(5))), [self.gate(env)], []))
@@ -748,4 +784,10 @@ class MoveGen:
             extra = [{"name": "apply_fn", "tweezer": False, "params": [("f", None), ("k", "int")],
                       "body": [("ret", ("callv", ("var", "f"), [("var", "k")]))], "nested": {}, "kinds": ["clos", "int"],
                       "returns": "int"}]
+        if getattr(self, "need_call_dev", False):
+            self.need_call_dev = False
+            extra.append({"name": "call_dev", "tweezer": False,
+                          "params": [("f", "schedule.DeviceFunction"), ("z", "grid.Grid[Any, Any]"), ("k", "int")],
+                          "body": [("devcall", ("var", "f"), [("var", "z"), ("var", "k")], [])], "nested": {},
+                          "kinds": ["dev", "grid", "int"], "returns": None})
         return kernels + subs + extra + [main], args
